@@ -42,7 +42,7 @@ REQUIRED_COUNTERS = ["applications_compared", "contexts_compared",
 
 
 def gen_case(rng, tier, index):
-    g = gen_rewrite.Gen(rng, tier)
+    g = gen_rewrite.Gen(rng, tier, empty_blocks_p=0.04)
     case = g.module()
     case["edits"] = []
     if rng.random() < 0.15:
@@ -121,31 +121,26 @@ def match_names(case, lst, fname, filt):
     return False
 
 
-def exit_blocks(case, lst):
-    labels = lst.label_positions()
-    edges, _, instr_at = irbuild.expected_edges(lst, labels)
-    start = {}
-    last = {}
-    for si, ii, t in lst.all_tokens():
-        if t.t == "B" and lst.block_info[t.bid]["code"]:
-            items = lst.block_items(t.bid)
-            if items:
-                start[(si, items[0].pos)] = t.bid
-                last[(si, items[-1].pos)] = t.bid
+def exit_blocks(case, lst, bu):
+    """blocks of a function with a return edge or an edge (other than a call
+    or syscall) that leaves the function; read from the input CFG that
+    irbuild derived from the listing"""
+    bid_of = {id(blk): bid for bid, blk in bu.blocks.items()}
     res = set()
-    for (si, pos, et, c, d, tgt) in edges:
-        b = last.get((si, pos))
-        if b is None:
+    for bid, blk in bu.blocks.items():
+        if not isinstance(blk, gtirb.CodeBlock):
             continue
-        fn = lst.block_fn.get(b)
+        fn = lst.block_fn.get(bid)
         if fn is None:
             continue
-        if et == "return":
-            res.add(b)
-        elif et not in ("call", "syscall"):
-            tb = start.get((tgt[1], tgt[2])) if tgt[0] == "pos" else None
-            if tb is None or lst.block_fn.get(tb) != fn:
-                res.add(b)
+        for e in blk.outgoing_edges:
+            et = e.label.type
+            if et == gtirb.Edge.Type.Return:
+                res.add(bid)
+            elif et not in (gtirb.Edge.Type.Call, gtirb.Edge.Type.Syscall):
+                tb = bid_of.get(id(e.target))
+                if tb is None or lst.block_fn.get(tb) != fn:
+                    res.add(bid)
     return res
 
 
@@ -185,6 +180,7 @@ def run_case(case):
     m = bu.module
     bid_of = {id(b): k for k, b in bu.blocks.items()}
     have_fn = bool(case["funcs"])
+    exits = exit_blocks(case, lst0, bu)
     flat = [r for p in case["passes"] for r in p]
     contexts = []
 
@@ -277,7 +273,6 @@ def run_case(case):
                             f"{want_refused}"})
     ctr["expected_refusals"] += len(want_refused)
     # ---- scope model -> per-block insertions
-    exits = exit_blocks(case, lst0)
     edits = []
     owner = {}
     code_blocks = [(bid, info) for bid, info in lst0.block_info.items()
@@ -317,6 +312,13 @@ def run_case(case):
             dict(case, edits=edits), exc)
         if kind == "raised":
             import traceback
+            if key in ("apply-raises:AssertionError@edit.py:insert",
+                       "apply-raises:ValueError@rewriting.py:"
+                       "resolve_offsets") and any(
+                    not lst0.block_info[e["b"]]["blk"]["items"]
+                    for e in edits):
+                # (F51) a registration designates a zero-sized block
+                key += ":zero-sized-block-designated"
             viol.append({"key": "scope:" + key, "msg": "".join(
                 traceback.format_exception(type(exc), exc,
                                            exc.__traceback__))[-1500:]})
